@@ -1,0 +1,11 @@
+//go:build verif
+
+// Contracts for govc (see /verif/DESIGN.md). Comment-only: no executable code with or without the tag.
+
+package phantoms
+
+// Frame of the subnet loader as its callers need it (reads the environment and a file, builds fresh objects).
+//@ func GetPhantomSubnetSelector() (*PhantomIPSelector, error)
+//@   ensures result1 == nil ==> result0 != nil
+//@   assigns nothing
+//@   trusted
